@@ -101,6 +101,13 @@ CHECKS["C18"] = dict(
     note=PROG_NOTE + " The meaning of the lock-time jets is part of the model and is itself validated by the replay on the unchanged tree.",
     design="5 (C18)")
 
+CHECKS["C11"] = dict(
+    category="model_checking",
+    technique="TLA+ literal semantics (Literals.tla, big decimals by limb arithmetic, cross-checked against generated expansions of 2^N) + TLC-enumerated literal forms replayed through compile and run",
+    text="Every width x boundary values x three notations x underscore / leading-zero / empty / over-long forms: accept/reject and the "
+         "denoted value are computed by Literals.tla; the real front end must agree and the compiled program must carry exactly that value.",
+    note=PROG_NOTE + " `[u8;0] = 0x_` is not classified (the statement is about integer types).", design="5 (C11)")
+
 PENDING = {}
 
 ALL = ["C%02d" % i for i in range(1, 21)]
